@@ -88,6 +88,8 @@ type interpreter struct {
 	runtimeErrorString types.Type             // the runtime.errorString type (iff "runtime" is present)
 	sizes              types.Sizes            // the effective type-sizing function
 	goroutines         int32                  // atomically updated
+	methodCache        map[methodKey]*ssa.Function
+	ifaceCache         map[ifaceKey]string
 	ps                 *pathState             // state of the path being explored
 	w                  *Worker
 }
@@ -186,7 +188,28 @@ func lookupMethod(i *interpreter, typ types.Type, meth *types.Func) *ssa.Functio
 	case errorType:
 		return i.errorMethods[meth.Id()]
 	}
-	return i.prog.LookupMethod(typ, meth.Pkg(), meth.Name())
+	// per-interpreter cache: ssa.Program.LookupMethod takes a program-wide mutex, which
+	// serialises the workers
+	k := methodKey{typ, meth}
+	if f, ok := i.methodCache[k]; ok {
+		return f
+	}
+	f := i.prog.LookupMethod(typ, meth.Pkg(), meth.Name())
+	if i.methodCache == nil {
+		i.methodCache = map[methodKey]*ssa.Function{}
+	}
+	i.methodCache[k] = f
+	return f
+}
+
+type methodKey struct {
+	t types.Type
+	m *types.Func
+}
+
+type ifaceKey struct {
+	itype *types.Interface
+	dyn   types.Type
 }
 
 // visitInstr interprets a single ssa.Instruction within the activation
@@ -438,7 +461,7 @@ func visitInstr(fr *frame, instr ssa.Instruction) continuation {
 		}
 
 	case *ssa.TypeAssert:
-		fr.env[instr] = typeAssert(instr, fr.get(instr.X).(iface))
+		fr.env[instr] = typeAssert(fr.i, instr, fr.get(instr.X).(iface))
 
 	case *ssa.MakeClosure:
 		var bindings []value
